@@ -17,7 +17,7 @@ RULE = ('explicit-state BFS: states are (real store canonical form incl. empty q
         'len} over the id domain (wildcard None included for lookups) is applied at every reachable state up to the stated '
         'depth; a case is non-trivial when the store holds at least one pending packet before the symbol is applied; '
         'distinct = distinct (state, symbol) pairs')
-ASSUMPTIONS = ['callers respect get()\'s documented precondition ((arg0, arg1) in store)',
+ASSUMPTIONS = ['callers respect get()\'s documented precondition ((arg0, arg1) in store)', 'state deduplication uses a structural canonical form of the whole object graph of the store (all attributes, aliasing explicit), so hidden state separates states',
                'the store never inspects packet payloads (tags are renumbered in the canonical form)',
                'putting a CLSE on a pair with no pending packet is unspecified by C19 (both outcomes admissible)']
 
@@ -127,11 +127,56 @@ def _uniq(states):
 
 # ----------------------------------------------------------------------------- the real object
 def real_canon(store):
-    """Ordered, including empty queues; tags raw.  Falls back to None when internals are not recognisable."""
+    """Structural canonical form of the whole object graph of the store (every attribute, not only the documented
+    dict of dicts of queues), with aliasing made explicit: a queue object reachable twice gets the same number.
+    Hidden state such as a cache therefore separates states instead of being merged away."""
+    memo = {}
+
+    def walk(x):
+        if x is None or isinstance(x, (int, str, bool, float)):
+            return x
+        if isinstance(x, (bytes, bytearray)):
+            return bytes(x)
+        if isinstance(x, (tuple, list)):
+            return (type(x).__name__,) + tuple(walk(i) for i in x)
+        i = id(x)
+        if i in memo:
+            return ('ref', memo[i])
+        memo[i] = len(memo)
+        n = memo[i]
+        if isinstance(x, dict):
+            return ('dict', n) + tuple((walk(k), walk(v)) for k, v in x.items())
+        if hasattr(x, '_queue') and hasattr(x, 'get_nowait'):
+            return ('queue', n) + tuple(walk(i) for i in x._queue)
+        if isinstance(x, (set, frozenset)):
+            return ('set', n) + tuple(sorted((walk(i) for i in x), key=repr))
+        if hasattr(x, '__iter__') and hasattr(x, '__len__'):
+            return ('seq', n) + tuple(walk(i) for i in x)
+        if hasattr(x, '__dict__'):
+            return ('obj', type(x).__name__, n) + tuple((k, walk(v)) for k, v in sorted(vars(x).items()))
+        return ('opaque', type(x).__name__)
     try:
-        return tuple((a1, tuple((a0, tuple(q._queue)) for a0, q in inner.items())) for a1, inner in store._dict.items())
-    except AttributeError:
+        return walk(vars(store))
+    except Exception:  # pylint: disable=broad-except
         return None
+
+
+def tags_in(c, out):
+    if isinstance(c, bytes):
+        if c.startswith(b'#'):
+            out.add(c)
+    elif isinstance(c, tuple):
+        for i in c:
+            tags_in(i, out)
+    return out
+
+
+def retag(c, rank):
+    if isinstance(c, bytes):
+        return rank.get(c, c)
+    if isinstance(c, tuple):
+        return tuple(retag(i, rank) for i in c)
+    return c
 
 
 def apply_symbol(store, ref, sym, tag):
@@ -197,7 +242,7 @@ def build(hist):
     """Fresh real store + reference, history replayed; returns (store, ref, error)."""
     store, ref = new_store(), Ref()
     for i, sym in enumerate(hist):
-        err = apply_symbol(store, ref, sym, i)
+        err = apply_symbol(store, ref, sym, b'#%d' % i)
         if err:
             return store, ref, err
     return store, ref, None
@@ -213,7 +258,7 @@ class _NoRef(object):
 def build_real(hist):
     store, ref = new_store(), _NoRef()
     for i, sym in enumerate(hist):
-        apply_symbol(store, ref, sym, i)
+        apply_symbol(store, ref, sym, b'#%d' % i)
     return store
 
 
@@ -221,10 +266,9 @@ def key_of(store, ref, hist):
     rc = real_canon(store)
     if rc is None:
         return ('hist', tuple(hist))
-    tags = ref.tags() | {t for _a1, inner in rc for _a0, q in inner for _c, t in q}
-    rank = {t: i for i, t in enumerate(sorted(tags))}
-    rc2 = tuple((a1, tuple((a0, tuple((c, rank[t]) for c, t in q)) for a0, q in inner)) for a1, inner in rc)
-    return (rc2, ref.canon(rank))
+    tags = tags_in(rc, set()) | ref.tags()
+    rank = {t: i for i, t in enumerate(sorted(tags, key=lambda b: int(b[1:])))}
+    return (retag(rc, rank), ref.canon(rank))
 
 
 _DOM = {}
@@ -245,7 +289,7 @@ def _expand(hists):
         pending = bref.any_pending()
         # read-only symbols: checked on one shared instance, state must not change
         for sym in ro:
-            err = apply_symbol(base, bref, sym, -1)
+            err = apply_symbol(base, bref, sym, b'#-1')
             trans += 1
             if pending:
                 nontriv.add(explore.digest((k0, sym)))
@@ -266,7 +310,7 @@ def _expand(hists):
                     continue                       # documented precondition of get() (base is unchanged, checked above)
             st, rf = build_real(hist), Ref(list(ref0))
             try:
-                err = apply_symbol(st, rf, sym, len(hist))
+                err = apply_symbol(st, rf, sym, b'#%d' % len(hist))
             except Exception as e:  # pylint: disable=broad-except
                 err = 'raised %s: %s' % (type(e).__name__, e)
             trans += 1
@@ -333,7 +377,7 @@ def run_one(params, ch):
 
 
 def parts(tier):
-    tiers = {'quick': [((0, 1, 2), 3), ((0, 1), 4)], 'thorough': [((0, 1, 2), 3), ((0, 1), 5), ((0, 1, 2), 4)]}[tier]
+    tiers = {'quick': [((0, 1, 2), 3), ((0, 1), 4), ((1,), 7)], 'thorough': [((0, 1, 2), 3), ((0, 1), 5), ((1,), 9), ((0, 1, 2), 4)]}[tier]
     out = []
     for dom, depth in tiers:
         p = Part('bfs-%dx%d-depth%d' % (len(dom), len(dom), depth), [{'dom': list(dom), 'depth': depth}], run_one,
